@@ -3,7 +3,7 @@ PROP = {'n_quick': 260,
  'n_thorough': 2500,
  'audit': 4,
  'audit_maxlen': 6000,
- 'rule': 'three streams: (o) `opened`: the real-network doc vector of verify_tx_amt_proofs, every tamper class at every position; (i) `tamper`: explicit transactions over the C04 shape lattice blinded by the real crate under a seeded RNG, then ONE tamper of the '
+ 'rule': 'four streams: (o) `opened`: the real-network doc vector of verify_tx_amt_proofs, every tamper class at every position; (m) `opened` mixed: transactions built directly with the real library whose outputs take all four forms explicit/confidential x (asset, value) — in particular explicit asset + confidential value and confidential asset + explicit amount — with every tamper class at those positions; (i) `tamper`: explicit transactions over the C04 shape lattice blinded by the real crate under a seeded RNG, then ONE tamper of the '
          "property's list applied to the real structures — explicit amount/asset, replaced or exchanged value/asset commitment, removed/exchanged/corrupted "
          'range or surjection proof, script of a blinded output, issuance amount, spent output with different amount/asset — at every applicable position '
          '(thorough) or one position per class and transaction (quick); (ii) `explicit`: all-explicit transactions, balanced / unbalanced in an input or '
